@@ -109,7 +109,10 @@ func (g *genState) name() string {
 
 func (g *genState) sub() string {
 	if g.cfg.Subs && g.r.Chance(1, 3) {
-		if g.r.Chance(1, 8) {
+		if g.r.Chance(1, 5) {
+			if g.r.Chance(1, 3) {
+				return Subs[3] // "S1": differs from "s1" by case only
+			}
 			return Subs[3+g.r.Intn(5)] // an oddity: "S1", "p%d", "k=v", "k" (a prefix of the former up to its equals sign), "t " (trailing blank)
 		}
 		return Subs[g.r.Intn(2)]
